@@ -12,6 +12,7 @@ type Plan struct {
 	Level         string
 	Race          bool
 	Scenarios     []ScenPlan
+	RacePhase     []ScenPlan // extra phase of a check whose main phase is not race-tier: scenarios run in free mode in a -race build
 	Micro         []ScenPlan // second phase of a race-tier check: scenarios run under the controlled scheduler (no -race build)
 	QuickWallS    float64 // per-worker wall-clock cap (safety net; run counts are the budget)
 	ThoroughWallS float64
@@ -130,16 +131,17 @@ var plans = map[string]*Plan{
 	"C16": {
 		Level:     "exploration",
 		Scenarios: []ScenPlan{{"ids", 6000, 40000}, {"sysxfer", 6000, 120000}, {"sysids", 4000, 60000}, {"sysws", 3000, 40000}},
+		RacePhase: []ScenPlan{{"idsrace", 480, 8000}},
 		QuickWallS: 120, ThoroughWallS: 1500,
-		Rule:        "Scenario ids: the real RequestContextMiddleware, default/custom header names, features on/off, client-supplied values (empty, padded, long, unusual), 1-8 (thorough 8-64) concurrent tasks generating identifiers at one frozen virtual instant; pairwise distinctness, echo, handler-sees-what-client-gets. Scenario sysxfer: the same invariants on every exchange of the system-level transparency runs. Scenario sysids: every response path behind the real server (proxied, 401 custom-auth, 413 size_limit, 429 limiter, 503 no healthy backend / breaker open).",
-		Real:        sysReal, Stub: sysStub, Assumptions: commonAssumptions,
-		ExpectProbes: []string{"ids-generated", "path-429", "path-401", "path-413", "path-503"},
+		Rule:        "Scenario ids: the real RequestContextMiddleware, default/custom header names, features on/off, client-supplied values (empty, padded, long, unusual), 1-8 (thorough 8-64) concurrent tasks generating identifiers at one frozen virtual instant; pairwise distinctness, echo, handler-sees-what-client-gets. Scenario sysxfer: the same invariants on every exchange of the system-level transparency runs. Scenario sysids: every response path behind the real server (proxied, 401 custom-auth, 413 size_limit, 429 limiter, 503 no healthy backend / breaker open). Scenario idsrace (race-tier phase, -race build, GOMAXPROCS=4): 8-32 free-running goroutines x 100-600 (thorough up to 4000) requests without identifiers through the real middleware; generated identifiers pairwise distinct, handler sees what the client gets; race reports and panics.",
+		Real:        sysReal, Stub: append(append([]string{}, sysStub...), "goroutine scheduling in the idsrace phase: NOT simulated (free-running goroutines, Go runtime under the race detector)"), Assumptions: append(append([]string{}, commonAssumptions...), "idsrace phase: the workload is seed-determined, the schedule is not; a duplicate identifier found there is reported with the run that produced it and may not recur on replay"),
+		ExpectProbes: []string{"ids-generated", "path-429", "path-401", "path-413", "path-503", "ids-generated-in-parallel"},
 	},
 	"C01": {
 		Level:     "exploration",
-		Scenarios: []ScenPlan{{"sysxfer", 12000, 250000}},
+		Scenarios: []ScenPlan{{"sysxfer", 12000, 250000}, {"sysfault", 6000, 100000}},
 		QuickWallS: 150, ThoroughWallS: 1700,
-		Rule:        "Scenario sysxfer: real http.Server + handler chain + balancer + ReverseProxy + http.Transport over simnet; 1-3 raw clients, 1-4 scripted backends (optional base paths), 3-10 exchanges per run with drawn methods, escaped paths, multi-valued / odd-cased headers, bodies 0-200KB in Content-Length or chunked framing split into writes, every status class incl. 103/204/304/3xx/4xx/5xx, streamed responses (chunked / SSE with 2-5s pauses); the seed picks the interleaving of deliveries, fragment sizes and small delays. Differential oracle: what each end sent vs what the other end received; flushed bytes must arrive before the backend's next write (fake-clock timestamps).",
+		Rule:        "Scenario sysxfer: real http.Server + handler chain + balancer + ReverseProxy + http.Transport over simnet; 1-3 raw clients, 1-4 scripted backends (optional base paths), 3-10 exchanges per run with drawn methods, escaped paths, multi-valued / odd-cased headers, bodies 0-200KB in Content-Length or chunked framing split into writes, every status class incl. 103/204/304/3xx/4xx/5xx, streamed responses (chunked / SSE with 2-5s pauses); the seed picks the interleaving of deliveries, fragment sizes and small delays. Differential oracle: what each end sent vs what the other end received; flushed bytes must arrive before the backend's next write (fake-clock timestamps). Scenario sysfault (backend and client faults): a response the backend ends early (short body, stall until Helios gives up) is never presented to the client as a complete one, whatever the framing.",
 		Real:        sysReal, Stub: sysStub, Assumptions: commonAssumptions,
 		ExpectProbes: []string{"stream-gap-checked"},
 	},
@@ -170,7 +172,7 @@ var plans = map[string]*Plan{
 	"C12": {
 		Level:     "exploration",
 		Race:      true,
-		Scenarios: []ScenPlan{{"sysrace", 1600, 24000}, {"comprace", 1600, 24000}},
+		Scenarios: []ScenPlan{{"sysrace", 1600, 24000}, {"comprace", 1600, 24000}, {"idsrace", 320, 4800}},
 		Micro:     []ScenPlan{{"lbmix", 16000, 400000}},
 		
 		QuickWallS: 200, ThoroughWallS: 1700,
